@@ -17,13 +17,16 @@ CTX = {}
 def gen_case(rng):
     return {'kind': 'storeinit', 'mode': rng.choice(['storeinit', 'storeinit', 'shareddefault']),
             'old': rng.choice([[], ['a'], ['a', 'b']]), 'new': rng.choice([['n1'], ['n1', 'n2']]),
-            'ticks': rng.choice([2, 3]), 'second_engine': rng.random() < 0.4}
+            'ticks': rng.choice([2, 3]), 'second_engine': rng.random() < 0.4, 'partial': rng.random() < 0.5}
 
 
 def corpus():
     return [{'kind': 'storeinit', 'mode': 'storeinit', 'old': ['a'], 'new': ['n1'], 'ticks': 2, 'second_engine': True},
             {'kind': 'storeinit', 'mode': 'shareddefault', 'old': ['a', 'b'], 'new': ['n1'], 'ticks': 2,
-             'second_engine': False}]
+             'second_engine': False},
+            # F46: the initial state names the new child but not all of its declared sub-variables
+            {'kind': 'storeinit', 'mode': 'storeinit', 'old': ['a'], 'new': ['n1'], 'ticks': 2, 'second_engine': False,
+             'partial': True}]
 
 
 def run_impl(case):
@@ -72,6 +75,9 @@ def run_impl(case):
             store = comp.generate_store({'initial_state': {'cells': {k: {'mass': 5 + i, 'tags': {'own': i}}
                                                                      for i, k in enumerate(case['old'])}}})
             init_new = {'cells': {k: {'mass': 50 + i, 'tags': {'own': 50 + i}} for i, k in enumerate(case['new'])}}
+            if case.get('partial'):
+                # `tags` is left to its declared default
+                init_new = {'cells': {k: {'mass': 50 + i} for i, k in enumerate(case['new'])}}
             eng = Engine(store=store, initial_state=init_new, emitter={'type': 'null'}, display_info=False,
                          progress_bar=False)
             CTX[key]['engine'] = eng
@@ -85,6 +91,7 @@ def run_impl(case):
                 eng2.update(1)
                 eng = eng2
             obs['final'] = {k: v['mass'] for k, v in eng.state.get_value()['cells'].items()}
+            obs['new_tags'] = {k: eng.state.get_value()['cells'][k]['tags'] for k in case['new']}
     except Exception as e:  # noqa
         obs['raised'] = f'{type(e).__name__}: {str(e)[:200]}'
     finally:
@@ -107,6 +114,11 @@ def oracle(case, impl):
                 return [f'other-node-changed: merge updates were addressed to child {names[0]} only; child {k} holds '
                         f'{tags}, expected {want}']
         return []
+    if case.get('partial'):
+        for k, tags in sorted(impl.get('new_tags', {}).items()):
+            if tags != {'base': 1}:
+                return [f'default-missing: child {k} came with the initial state of Engine(store=, initial_state=) '
+                        f'without a value for `tags`; it holds {tags!r}, the declared default is {{"base": 1}}']
     for ev in impl['log']:
         if ev['actual'] is not None and ev['seen'] != ev['actual']:
             return [f'stale-view: at t={ev["t"]} the process is shown cells {ev["seen"]}, the hierarchy holds '
